@@ -28,6 +28,10 @@ class Unserialisable(Exception):
     pass
 
 
+class OutcomeUnserialisable(Exception):
+    """the implementation produced something (a result, a store key) the model has no value for"""
+
+
 def make_oid(n):
     """An ObjectId whose identity is the integer n (counter-based, deterministic)."""
     o = ObjectId.__new__(ObjectId)
